@@ -294,7 +294,13 @@ def _run_verus_unit(prop, u, workdir, variant, extra):
             m = re.search(r"^.*\bproof fn %s\b" % re.escape(n), text, re.M)
             if m:
                 start = text[:m.start()].count("\n") + 1
-                ef_lines.update(range(start, start + 40))
+                # the guard's own extent: from its `proof fn` line to its (empty) body `{}` - NOT a fixed window, which
+                # would also swallow a genuine postcondition failure of whatever item follows the guard
+                mb = re.compile(r"\{\s*\}").search(text, m.end())
+                end = text[:mb.end()].count("\n") + 1 if mb else start + 40
+                if end - start > 60:
+                    end = start + 40
+                ef_lines.update(range(start, end + 1))
         kept = [e for e in errs if not (e["line"] in ef_lines and "postcondition" in e["msg"])]
         dropped = len(errs) - len(kept)
         errs = kept
